@@ -429,7 +429,14 @@ impl Check for C11 {
         for _ in 0..nops {
             case.ops.push(match d.weighted(&[10, 8, 2, 2, 2]) {
                 0 => Op::Next,
-                1 => Op::PeekN { n: crate::gen::gen_peek_n_opt(d, 6, true) },
+                1 => {
+                    if text.len() > 140 && d.bool() {
+                        // a long input: windows of more than 128 / 256 tokens actually fill up
+                        Op::PeekN { n: *d.pick(&[127usize, 128, 129, 130, 200, 256, 257, 1000]) }
+                    } else {
+                        Op::PeekN { n: crate::gen::gen_peek_n_opt(d, 6, true) }
+                    }
+                }
                 2 => Op::SetMode { m: d.below(nm) },
                 3 => {
                     let o = text.offs[d.below(text.offs.len())];
